@@ -424,3 +424,49 @@ Example C01_stretch_invariance_float_nonvacuous :
   q2s (PrimFloat.mul t f) (sps_rel spq (PrimFloat.div qpm f)) = 4.
 Proof. exact stretch_invariance_float_nonvacuous. Qed.
 Print Assumptions C01_stretch_invariance_float_nonvacuous.
+
+(** steps_per_quarter * qpm / 60.0 is the correctly rounded exact quotient whenever the int * float
+    product is exact (every integer qpm; any qpm with few significant bits) *)
+Theorem C01_sps_rel_correctly_rounded : forall (spq : Z) (qpm : Coq.Floats.PrimFloat.float),
+  1 <= spq <= 1024 -> fin qpm -> (1 <= R_of qpm <= 1024)%R ->
+  generic_format radix2 fexp (IZR spq * R_of qpm) ->
+  R_of (sps_rel spq qpm) = rnd (IZR spq * R_of qpm / 60) /\ fin (sps_rel spq qpm).
+Proof. exact sps_rel_correctly_rounded. Qed.
+Print Assumptions C01_sps_rel_correctly_rounded.
+
+(** exact half-step ties of the EXACT tempo-relative position t*spq*qpm/60 round up, as long as the one
+    unavoidable rounding of the resolution (at most ulp(x)/2, scaled by t) is less than half the gap
+    below k + 1/2; no caveat when the resolution is exactly representable *)
+Theorem C01_q2s_rel_tie_up : forall t spq qpm k,
+  fin t -> 1 <= spq <= 1024 -> fin qpm -> (1 <= R_of qpm <= 1024)%R ->
+  generic_format radix2 fexp (IZR spq * R_of qpm) ->
+  (0 <= R_of t <= bpow radix2 40)%R -> 0 <= k < 2 ^ 40 ->
+  let x := (IZR spq * R_of qpm / 60)%R in
+  let y := (IZR k + / 2)%R in
+  (R_of t * x)%R = y ->
+  (R_of t * ulp radix2 fexp x < y - pred radix2 fexp y)%R ->
+  q2s t (sps_rel spq qpm) = k + 1.
+Proof. exact q2s_rel_tie_up. Qed.
+Print Assumptions C01_q2s_rel_tie_up.
+
+Theorem C01_q2s_rel_tie_up_exact : forall t spq qpm k,
+  fin t -> 1 <= spq <= 1024 -> fin qpm -> (1 <= R_of qpm <= 1024)%R ->
+  generic_format radix2 fexp (IZR spq * R_of qpm) ->
+  generic_format radix2 fexp (IZR spq * R_of qpm / 60) ->
+  0 <= k < 2 ^ 51 ->
+  (R_of t * (IZR spq * R_of qpm / 60) = IZR k + / 2)%R ->
+  q2s t (sps_rel spq qpm) = k + 1.
+Proof. exact q2s_rel_tie_up_exact. Qed.
+Print Assumptions C01_q2s_rel_tie_up_exact.
+
+(** 3 steps per quarter at 72 qpm (3.6 steps per second, not representable), t = 3.75 s = 13.5 steps *)
+Example C01_q2s_rel_tie_up_nonvacuous :
+  let t := fdec 4615626668101337088 in let qpm := f_of_Z 72 in let spq := 3 in let k := 13 in
+  fin t /\ fin qpm /\ (1 <= R_of qpm <= 1024)%R /\
+  generic_format radix2 fexp (IZR spq * R_of qpm) /\
+  (0 <= R_of t <= bpow radix2 40)%R /\
+  (R_of t * (IZR spq * R_of qpm / 60) = IZR k + / 2)%R /\
+  (R_of t * ulp radix2 fexp (IZR spq * R_of qpm / 60) < (IZR k + / 2) - pred radix2 fexp (IZR k + / 2))%R /\
+  q2s t (sps_rel spq qpm) = 14.
+Proof. exact q2s_rel_tie_up_nonvacuous. Qed.
+Print Assumptions C01_q2s_rel_tie_up_nonvacuous.
